@@ -88,7 +88,7 @@ Section Preservation.
       | rewrite regs_flush_batch | rewrite regs_continue_with_batch | rewrite regs_schedule_batch
       | rewrite regs_pause_contexts | rewrite regs_resume_contexts | rewrite regs_complete_task
       | rewrite regs_accept_error | rewrite regs_enter_ctx | rewrite regs_exit_ctx
-      | rewrite regs_set_task | rewrite regs_put | rewrite regs_emit ];
+      | rewrite regs_set_task | rewrite regs_put | rewrite regs_emit | rewrite regs_drop_sb ];
     cbn [fst snd].
 
   Lemma step_MValue h fr s : Inv (mkC (MValue h) fr s) -> Inv (step P (mkC (MValue h) fr s)).
@@ -412,11 +412,12 @@ Proof.
   destruct (run P n (start h s)) as [m fr s']. cbn in Hm. subst m. exact HI.
 Qed.
 
-(* T5: the MAX_TASK_STACK_SIZE guard leaves a reset scheduler behind *)
+(* T5: the MAX_TASK_STACK_SIZE guard leaves a reset scheduler behind; the active task - the caller, whose code
+   goes on once it has received the RuntimeError - is kept *)
 Theorem guard_resets P init fr s :
   (init < length (tasks s))%nat -> (p_maxstack P < Z.of_nat (length (tasks s)))%Z ->
   let c' := step P (mkC MExecLoop (FExec init :: fr) s) in
-  c_mode c' = MUnwind E_RUNTIME /\ tasks (c_st c') = [] /\ sb (c_st c') = [] /\ active (c_st c') = None.
+  c_mode c' = MUnwind E_RUNTIME /\ tasks (c_st c') = [] /\ sb (c_st c') = [] /\ active (c_st c') = active s.
 Proof.
   intros Hi Hm. cbn [step c_mode c_frames c_st].
   destruct (Nat.leb (length (tasks s)) init) eqn:E; [apply Nat.leb_le in E; lia|].
